@@ -48,7 +48,7 @@ def run(shard, rec, tier, seed):
                 continue
             rec.count("trees-staged")
             if t.generator_reused:
-                rec.count("trees-generated-by-an-instance-that-read-an-earlier-revision")
+                rec.count("trees-generated-after-a-failed-run-on-a-broken-revision" if t.prior_failed else "trees-generated-by-an-instance-that-read-an-earlier-revision")
             campaign.record_features(rec, feats)
             run_tree(campaign.CaptureRec(rec, ti), tier, seed, ti, spec, t)
 
